@@ -115,6 +115,10 @@ def _case(draw, tier):
     # the condition then reaches the universal variable through its attributes as before
     if klass in ("both", "only_u") and chance(draw, 1, 3):
         fa = ["forall", u, c, ["attr", ["var", u], draw(st.sampled_from(["a", "b", "s", "ref", "tags"]))]]
+    if klass == "both" and len(fa) == 3 and any(recs[i]["kids"] for i in doms[u]) and chance(draw, 1, 5):
+        # the universal expression is a flattened collection: for_all(flatten(s.kids), c) quantifies over every element of
+        # every s (inside c the universal index then denotes the element)
+        fa = ["forall", u, c, ["flat", ["attr", ["var", u], "kids"]]]
     combine = draw(st.sampled_from(["alone", "alone", "d_first", "d_last", "top_level"]))
     if combine == "alone":
         cond = fa
@@ -133,7 +137,7 @@ def _case(draw, tier):
             "desc": "entity" if (len(sel) == 1 and draw(st.booleans())) else "set_of", "quant": "an",
             "split_top": split, "dom_kind": "list", "klass": klass, "combine": combine, "u": u}
     inner = [n for n in A.walk(cond) if n[0] == "forall"][0][2]
-    if not A.has_kind(cond, "not") and A.has_kind(inner, "cmp", "in") and chance(draw, 1, 4):
+    if not A.has_kind(cond, "not") and A.has_kind(inner, "cmp", "in") and not (len(fa) > 3 and fa[3][0] == "flat") and chance(draw, 1, 4):
         # the comparison objects of the quantified condition were used before, in an ordinary query over the same
         # variables (where u is an ordinary variable), e.g. as an operand of or_ - which asks them for false results too
         other = leaf(draw, ctx, [draw(st.integers(0, nF - 1))])
@@ -151,10 +155,22 @@ def strategy(tier):
 def check(case) -> Outcome:
     from entity_query_language.cache_data import enable_caching, disable_caching
     objs = build_entities(case["ents"])
-    expected, n_sat, n_all = reference_rows(case, objs)
     u = case["u"]
-    U = var_domains(case, objs)[u]
     fa = [n for n in A.walk(case["cond"]) if n[0] == "forall"][0]
+    ref_case = case
+    if len(fa) > 3 and fa[3][0] == "flat":
+        # reference: the universal variable ranges over the flattened elements (kids are indices into the dataset)
+        import copy
+        ref_case = copy.deepcopy(case)
+        ref_case["doms"] = [list(d) for d in case["doms"]]
+        ref_case["doms"].append([k for i in case["doms"][case["vars"][u]["dom"]] for k in case["ents"][i]["kids"]])
+        ref_case["vars"][u] = dict(ref_case["vars"][u], dom=len(ref_case["doms"]) - 1, decl="let")
+        ref_case["vars"][u].pop("kw", None)
+        for n_ in A.walk(ref_case["cond"]):
+            if n_[0] == "forall" and len(n_) > 3:
+                del n_[3:]
+    expected, n_sat, n_all = reference_rows(ref_case, objs)
+    U = var_domains(ref_case, objs)[u]
     inner_vars = A.cond_vars(fa[2]) | ({u} if u in _mentions(fa[2]) else set())
     mentions_u = u in _mentions(fa[2])
     mentions_f = bool(_mentions(fa[2]) - {u})
@@ -169,7 +185,8 @@ def check(case) -> Outcome:
     feats.append(f"free{len(case['vars']) - 1}")
     if len(case["sel"]) < len(case["vars"]) - 1:
         feats.append("projected")
-    feats.append("universal_is_attribute_expression" if len(fa) > 3 else "universal_is_variable")
+    feats.append(("universal_is_flattened_collection" if fa[3][0] == "flat" else "universal_is_attribute_expression")
+                 if len(fa) > 3 else "universal_is_variable")
     classes = list(feats) + [f"U{min(len(U), 4)}"]
     if case.get("prelude_sharing_comparisons") is not None:
         classes.append("comparison_objects_used_in_an_earlier_query")
